@@ -199,6 +199,9 @@ def exec (s : State) : List Act → State
 def Op.isClose : Op → Bool
   | .close => true
   | _ => false
+def isFreshCh : Ch → Bool
+  | .fresh _ => true
+  | _ => false
 def Op.isSend : Op → Bool
   | .send => true
   | .full => true
@@ -587,6 +590,30 @@ def closeSecond : PC → Bool
   | .doneSend _ => false
   | .doneRecv _ => false
   | .doneFull _ _ => false
+
+/-- a Make/Get/Send/Recv/Full call that was the first `do`: it installed a fresh channel -/
+def freshFirst : PC → Bool
+  | .idle => false
+  | .start _ => false
+  | .panicked op first => first && ! Op.isClose op
+  | .dLock _ => false
+  | .dRead _ => false
+  | .dF _ => false
+  | .dStore op => ! Op.isClose op
+  | .dUnlock op first => first && ! Op.isClose op
+  | .cClose => false
+  | .cGet first => first
+  | .cSend first => first
+  | .cRecv first => first
+  | .cRecvW first _ => first
+  | .cFull first => first
+  | .cFullRecv first _ => first
+  | .doneClose _ => false
+  | .doneMake first => first
+  | .doneGet first _ => first
+  | .doneSend first => first
+  | .doneRecv first => first
+  | .doneFull first _ => first
 
 /-- next step reads the non-atomic field `ch` -/
 def readsCh : PC → Bool
